@@ -1004,7 +1004,7 @@ async fn check_range(cx: &mut Ctx, db: &Db, q: &Query, model: &Model, at: usize)
         .pred
         .0
         .iter()
-        .any(|a| matches!(a, Atom::Cmp { col, .. } if col == pkname));
+        .any(|a| matches!(a, Atom::Cmp { col, .. } | Atom::CmpFlipped { col, .. } if col == pkname));
     if !on_pk || q.count {
         return;
     }
@@ -1071,8 +1071,35 @@ async fn check_range(cx: &mut Ctx, db: &Db, q: &Query, model: &Model, at: usize)
     if def.cols[pk].ty == Ty::Int && pk == 0 && cx.case.knobs().record_first_key {
         let mut lo: Option<(bool, i32)> = None;
         let mut hi: Option<(bool, i32)> = None;
+        // one range for the storage API: only when the key conjuncts are at most one lower and
+        // one upper bound (or one equality) with INT constants
+        let key_atoms: Vec<&Atom> = q
+            .pred
+            .0
+            .iter()
+            .filter(|a| matches!(a, Atom::Cmp { col, .. } | Atom::CmpFlipped { col, .. } if col == pkname))
+            .collect();
+        let simple = key_atoms.iter().all(|a| {
+            matches!(a, Atom::Cmp { val: Val::Int(v), .. } | Atom::CmpFlipped { val: Val::Int(v), .. }
+                if i32::try_from(*v).is_ok())
+        }) && {
+            let ops: Vec<Cmp> = key_atoms
+                .iter()
+                .map(|a| match a {
+                    Atom::Cmp { op, .. } | Atom::CmpFlipped { op, .. } => *op,
+                    _ => Cmp::Ne,
+                })
+                .collect();
+            let lows = ops.iter().filter(|o| matches!(o, Cmp::Gt | Cmp::Ge)).count();
+            let highs = ops.iter().filter(|o| matches!(o, Cmp::Lt | Cmp::Le)).count();
+            let eqs = ops.iter().filter(|o| matches!(o, Cmp::Eq)).count();
+            !ops.contains(&Cmp::Ne) && ((eqs == 1 && lows + highs == 0) || (eqs == 0 && lows <= 1 && highs <= 1))
+        };
+        if !simple {
+            return;
+        }
         for a in &q.pred.0 {
-            if let Atom::Cmp { col, op, val: Val::Int(v) } = a {
+            if let Atom::Cmp { col, op, val: Val::Int(v) } | Atom::CmpFlipped { col, op, val: Val::Int(v) } = a {
                 if col != pkname {
                     continue;
                 }
